@@ -136,6 +136,22 @@ def bait(model: ir.Model, gen: gen_ir.IRGen) -> None:
                     g.outputs.append(u.outputs[0])
             else:
                 g.append(ir.Node("", "Relu", [src], outputs=[gen.value()]))  # unused node
+        if rng.random() < 0.25:
+            # real ONNX ops whose OPTIONAL outputs sit in non-trailing positions (unused-output trimming)
+            g.opset_imports.setdefault("", 18) if g is main or is_fn else None
+            main.opset_imports.setdefault("", 18)
+            x = rng.choice(vis)
+            if rng.random() < 0.5:
+                n = ir.Node("", "LayerNormalization", [x, x], [ir.AttrInt64("axis", -1)],
+                            outputs=[gen.value(), gen.value(), gen.value()], name=gen.fresh("ln"))
+                used = [0, 2]
+            else:
+                n = ir.Node("", "LSTM", [x, x, x], [ir.AttrInt64("hidden_size", 2)],
+                            outputs=[gen.value(), gen.value(), gen.value()], name=gen.fresh("lstm"))
+                used = [1] if rng.random() < 0.5 else [2]
+            g.append(n)
+            for j in used:
+                g.outputs.append(n.outputs[j])
         if not is_fn and rng.random() < 0.5:
             arr = np.array(rng.choice([[1, 2, 3], [4, 5]]), dtype=np.int64)
             for _ in range(2):  # duplicate initializers (same bytes), used
@@ -317,6 +333,9 @@ def add_failing_lazy_initializer(model, big=False):
 def judge_pass(ctx, model, pname, rng, case, fault_kind=None, messy_names=False):
     viol = lambda sig, msg: ctx.violation(sig, msg, {"case": case, "seed": ctx.seed, "pass": pname, "fault": fault_kind})  # noqa: E731
     p = PASS_FACTORIES[pname](rng)
+    if fault_kind is None and pname not in ANALYSIS and rng.random() < 0.15:
+        p = ir.passes.functionalize(p)  # functional variant: must return a DIFFERENT model and leave the input alone
+        ctx.count("functionalized_single_passes")
     w = World()
     w.adopt_model(model)
     if invariants.check_world(w):
@@ -364,6 +383,16 @@ def judge_pass(ctx, model, pname, rng, case, fault_kind=None, messy_names=False)
         viol(f"identity|{pname}", f"{pname}.in_place={p.in_place} but result.model is input: {same}")
         return True
     out = res.model
+    if not p.in_place and not p.changes_input:
+        post_in = snapshot.snapshot(w)
+        # tensors are shared between a model and its clone by documented design, and renaming a value
+        # renames its backing tensor: a change of a shared tensor's OWN name is not a change of the model
+        d = [x for x in snapshot.diff(pre, post_in, limit=60)
+             if not (x[1] == "const" and x[2] is not None and x[3] is not None and len(x[2]) == len(x[3])
+                     and x[2][:3] == x[3][:3] and x[2][4:] == x[3][4:])]
+        if d:
+            viol(f"input-changed|functional|{pname}", f"functional {pname} changed its input: " + "; ".join(f"{l}.{f}" for l, f, _, _ in d[:5]))
+            return True
     # links
     bad = invariants.check_model(out)
     if bad:
@@ -475,37 +504,65 @@ def run_case(ctx, case):
                     "nodes": sum(1 for g in all_graphs(model) for _ in g)})
 
 
+def _is_identity_pass_error(e) -> bool:
+    """PassBase raises PassError when a (composite) pass returns the wrong object for its declared
+    in_place property: that is the infrastructure noticing a broken identity contract."""
+    return isinstance(e, ir.passes.PassError) and e.__cause__ is None and "declared" in str(e) and "in-place" in str(e)
+
+
 def judge_composition(ctx, model, seq, rng, case):
-    passes = [PASS_FACTORIES[n](rng) for n in seq]
+    passes = []
+    wrapped = []
+    for n in seq:
+        p = PASS_FACTORIES[n](rng)
+        if rng.random() < 0.35:
+            p = ir.passes.functionalize(p)
+            wrapped.append(n)
+        passes.append(p)
     comp = ir.passes.PassManager(passes, steps=rng.randint(1, 3), early_stop=rng.random() < 0.5) if rng.random() < 0.5 \
         else ir.passes.Sequential(*passes)
-    b0, _ = try_ser(model)
-    try:
-        res = comp(model)
-    except Exception:  # noqa: BLE001
-        ctx.count("composition_error")
-        return False
-    ctx.count("compositions_applied")
-    name = "+".join(seq)
-    if (res.model is model) != bool(comp.in_place):
-        ctx.violation(f"identity|composition|{type(comp).__name__}", f"{type(comp).__name__}({name}).in_place={comp.in_place}, same object={res.model is model}",
-                      {"case": case, "seed": ctx.seed})
-        return True
-    bad = invariants.check_model(res.model)
-    if bad:
-        ctx.violation(f"links|composition|{'+'.join(sorted({c for c, _ in bad}))}", f"after {name}: " + "; ".join(m for _, m in bad[:4]),
-                      {"case": case, "seed": ctx.seed})
-        return True
-    b1, _ = try_ser(res.model)
-    if not res.modified:
-        ctx.count("flag_false_judged")
-        if b0 is not None and b1 is not None and b0 != b1:
-            d = _first_proto_diff(b0, b1)
-            # attribute to the single pass when the composition is re-run pass by pass is left to the per-pass cases
-            ctx.violation(f"modified-false-but-changed|composition|{d[0]}", f"{name} reported modified=False but changed: {d[1]}",
-                          {"case": case, "seed": ctx.seed})
+    name = "+".join(("f(%s)" % n) if n in wrapped else n for n in seq)
+    kind = type(comp).__name__ + ("|functional" if wrapped else "")
+    rep = {"case": case, "seed": ctx.seed}
+    cur = model
+    any_modified = False
+    for round_ in (1, 2):  # the second application runs at (or near) the fixpoint
+        b0, _ = try_ser(cur)
+        try:
+            res = comp(cur)
+        except Exception as e:  # noqa: BLE001
+            if _is_identity_pass_error(e) and not any(n in ANALYSIS for n in seq):
+                ctx.violation(f"identity|composition|{kind}|PassError", f"round {round_} of {type(comp).__name__}({name}) raised: {e}"[:800], rep)
+                return True
+            ctx.count("composition_error")
+            return any_modified
+        ctx.count("compositions_applied")
+        if wrapped:
+            ctx.count("compositions_with_functional_passes")
+        if (res.model is cur) != bool(comp.in_place):
+            ctx.violation(f"identity|composition|{kind}", f"{type(comp).__name__}({name}).in_place={comp.in_place}, same object={res.model is cur}", rep)
             return True
-    return bool(res.modified)
+        if not comp.changes_input:
+            ctx.count("compositions_not_changing_input_judged")
+            b_in, _ = try_ser(cur)
+            if b0 is not None and b_in is not None and b_in != b0:
+                d = _first_proto_diff(b0, b_in)
+                ctx.violation(f"input-changed|composition|{kind}", f"{name}: changes_input=False but the input model changed: {d[1]}", rep)
+                return True
+        bad = invariants.check_model(res.model)
+        if bad:
+            ctx.violation(f"links|composition|{'+'.join(sorted({c for c, _ in bad}))}", f"after {name}: " + "; ".join(m for _, m in bad[:4]), rep)
+            return True
+        b1, _ = try_ser(res.model)
+        if not res.modified:
+            ctx.count("flag_false_judged")
+            if b0 is not None and b1 is not None and b0 != b1:
+                d = _first_proto_diff(b0, b1)
+                ctx.violation(f"modified-false-but-changed|composition|{d[0]}", f"{name} reported modified=False but changed: {d[1]}", rep)
+                return True
+        any_modified = any_modified or bool(res.modified)
+        cur = res.model
+    return any_modified
 
 
 def run_case_isolated(ctx, case):
